@@ -127,14 +127,14 @@ PROPS.update({
               proj_lines(("op ", "out ", "abort ", "done", "skipped", "fs ", "cl ", "known ", "bad-op")), OB.c01, [],
               proj_name="C01: returned outputs, abort kinds, resource contents, reference builds",
               known_match=known_if_model_agrees("K5", OB.c01)),
-    "C02": mk("C02", [("td", GB.case_td, 1), ("tdx", lambda r: (GB.case_td(r, exact=True), dict(exact=True)), 1)], 900, 20000,
+    "C02": mk("C02", [("td", GB.case_td, 2), ("tdx", lambda r: (GB.case_td(r, exact=True), dict(exact=True)), 2), ("pan", GB.case_panic, 1)], 900, 20000,
               proj_lines(("op ", "ev execute_start", "ev check_", "out ", "abort ", "cl exec", "bad-op")),
               lambda c, io: OB.c02(c, io, exact=c.meta.get("exact", False)), [],
               proj_name="C02: execute_start and check events with verdicts per session"),
-    "C03": mk("C03", [("bu", GB.case_bu, 3), ("k1", GB.case_partial_td_then_bu, 1)], 900, 20000,
+    "C03": mk("C03", [("bu", GB.case_bu, 3), ("bud", GB.case_bu_dense, 2), ("k1", GB.case_partial_td_then_bu, 1)], 900, 20000,
               proj_lines(("op ", "ev execute_", "ev schedule_task", "out ", "abort ", "done", "fs ", "cl ", "known ", "bad-op")), OB.c03, [],
               proj_name="C03: executions, scheduling, outputs, contents", known_match=known_if_model_agrees("K1", OB.c03)),
-    "C04": mk("C04", [("bu", GB.case_bu, 1)], 900, 20000,
+    "C04": mk("C04", [("bu", GB.case_bu, 1), ("bud", GB.case_bu_dense, 1)], 900, 20000,
               proj_lines(("op ", "ev execute_", "ev schedule_", "ev check_task_re", "out ", "abort ", "done", "bad-op")), OB.c04, [],
               proj_name="C04: order of execute_start/end, schedule and scheduling-check events"),
     "C05": mk("C05", [("hid", GB.case_hidden, 3), ("td", GB.case_td, 1)], 900, 20000,
@@ -167,7 +167,7 @@ PROPS.update({
               proj_name="C18: dependency_check_errors, executions, scheduling, outputs"),
     "C19": mk("C19", [("pan", GB.case_panic, 1)], 900, 20000,
               proj_lines(("op ", "out ", "abort ", "done", "skipped", "fs ", "cl ", "bad-op")), OB.c19, [],
-              proj_name="C19: outcomes of all sessions after an abort"),
+              proj_name="C19: outcomes of all sessions after an abort", known_match=known_if_model_agrees("K6", OB.c19)),
     "C20": mk("C20", [("rol", GB.case_roles, 2), ("td", GB.case_td, 1), ("bu", GB.case_bu, 1)], 900, 20000,
               proj_lines(("op ", "out ", "abort ", "done", "skipped", "cl ", "bad-op")),
               lambda c, io: OB.c20(c, io) + ([f"well-formed program aborted: {l}" for l in io if l in ("abort overlap", "abort hidden", "abort cyclic")]
